@@ -104,7 +104,7 @@ def c01_balance_sheet(case, step_state, mults, check_weights=True):
                     num = fnum(k.s["notl"] if fi else k.s["value"])
                     if isinstance(base, str) or base != base:
                         continue        # a NaN parent value: the quotient is not a number, nothing to compare
-                    if abs(base) > 1e-12:
+                    if abs(base) >= 1e-16:        # bt.core.is_zero: abs(x) < TOL = 1e-16
                         want = num / base
                     else:
                         want = 0.0
@@ -392,6 +392,44 @@ def c17_fixed_income(case, impl_case):
                 if not near(hn[t], tot, tot):
                     fails.append("%s row %d: notional %r != sum |child notional| %r" % (n.path, t, hn[t], tot))
                     break
+    # accrual: each date a coupon-paying security records position x coupon and the long / short holding cost on the
+    # absolute position (nothing when flat or when no cost table was supplied); rows are data dates shifted by the
+    # synthetic first row
+    def table(key):
+        return {t: col for t, col in (case.get(key) or [])}
+    cpn, cl, cs = table("coupons"), table("cost_long"), table("cost_short")
+    for n in walk(root):
+        if n.kind != "S" or "h_coupons" not in n.f:
+            continue
+        sp = specs.get(strip_paper(n.path))
+        if not sp or sp[2] not in ("coupon", "couponhedge"):
+            continue
+        tid = sp[1]
+        pos, hc, hh = n.vals("h_positions"), n.vals("h_coupons"), n.vals("h_hcosts")
+        for t in range(1, min(len(pos), len(hc), len(hh))):
+            p_ = fnum(pos[t])
+            if p_ != p_ or isinstance(hc[t], str) and hc[t] != "nan":
+                break
+
+            def cell(tab):
+                col = tab.get(tid)
+                if col is None or t - 1 >= len(col) or col[t - 1] == "nan":
+                    return None
+                return float.fromhex(col[t - 1])
+            c_ = cell(cpn)
+            if c_ is not None or abs(p_) < 1e-16:
+                want_c = 0.0 if abs(p_) < 1e-16 and c_ is None else p_ * (c_ or 0.0)
+                if not near(fnum(hc[t]), want_c, want_c):
+                    fails.append("%s row %d: coupon income %r, expected position x coupon = %r" % (n.path, t, hc[t], want_c))
+                    break
+            k_ = cell(cl) if p_ > 0 else (cell(cs) if p_ < 0 else 0.0)
+            if (p_ > 0 and tid not in cl) or (p_ < 0 and tid not in cs):
+                k_ = 0.0
+            if k_ is not None:
+                want_h = abs(p_) * k_
+                if not near(fnum(hh[t]), want_h, want_h):
+                    fails.append("%s row %d: holding cost %r, expected |position| x cost = %r" % (n.path, t, hh[t], want_h))
+                    break
     pr, val, fl, nt = root.vals("hg_prices"), root.vals("hg_values"), root.vals("hg_flows"), root.vals("hg_notls")
     for t in range(1, len(pr)):
         base = nt[t - 1] if abs(nt[t - 1]) > 1e-16 else nt[t]
@@ -486,6 +524,20 @@ def flat_algos(stack):
     return out
 
 
+def all_algos(stack):
+    """every algo of a stack at any depth, composites (stack / always / or / not) and their members included"""
+    out = []
+    for a in stack:
+        out.append(a)
+        if a[0] in ("stack", "or"):
+            out += all_algos(a[1])
+        elif a[0] == "always":
+            out += all_algos([a[2]])
+        elif a[0] == "not":
+            out += all_algos([a[1]])
+    return out
+
+
 SELECTORS = ("selectall", "selectthese", "hasdata", "selectn", "selectwhere", "selectregex", "selecttypes", "selectactive")
 
 
@@ -536,8 +588,9 @@ def c14_selection(case, impl_case):
             continue
         fl = flat_algos(sp[4])
         sels = [a for a in fl if a[0] in SELECTORS]
-        if not sels or any(a[0] in ("setstat", "not", "or") for a in fl):
+        if not sels or any(a[0] in ("not", "or") for a in fl):
             continue
+        with_setstat = any(a[0] == "setstat" for a in fl)      # only the ranking clauses are checked for these stacks
         default = all(not (a[0] in ("selectall",) and (a[1] or a[2])) and
                       not (a[0] in ("selectthese", "selectwhere") and (a[2] or a[3])) and
                       not (a[0] == "hasdata" and (a[4] or a[5])) for a in sels) and \
@@ -549,7 +602,7 @@ def c14_selection(case, impl_case):
                 continue
             if len(set(sel)) != len(sel):
                 fails.append("%s row %d: duplicates in selected %s" % (n.path, row, sel))
-            for k in sel:
+            for k in ([] if with_setstat else sel):
                 if k not in universe:
                     fails.append("%s row %d: selected %d is outside the strategy's universe %s" % (n.path, row, k, sorted(universe)))
                     break
@@ -558,9 +611,61 @@ def c14_selection(case, impl_case):
                     if p is None or p != p or p <= 0:
                         fails.append("%s row %d: selected %d although its current price is %r" % (n.path, row, k, p))
                         break
+            # StatTotalReturn: the statistic of a data column is its total return over the documented interval
+            # [now - lag - lookback, now - lag]: last / first price of the rows of the data (synthetic first row included)
+            # that fall in it
+            trs = [a for a in fl if a[0] == "totalreturn"]
+            if st is not None and len(trs) == 1 and not with_setstat and int(trs[0][1]) == 0 and int(trs[0][3]) == 0:
+                day = 86400
+                alld = [case["dates"][0] - day] + list(case["dates"])
+                t0 = alld[row] - int(trs[0][4]) * day
+                lo = t0 - int(trs[0][2]) * day
+                rows = [r for r, d_ in enumerate(alld) if lo <= d_ <= t0]
+                pcols = {k: col for k, col in case["prices"]}
+                if rows:
+                    for k, v in st.items():
+                        if k not in pcols:
+                            continue
+
+                        def px(r):
+                            if r == 0 or pcols[k][r - 1] == "nan":
+                                return float("nan")
+                            return float.fromhex(pcols[k][r - 1])
+                        a0, a1 = px(rows[0]), px(rows[-1])
+                        if a0 != a0 or a1 != a1:
+                            want = float("nan")
+                        elif a0 == 0:                      # IEEE division, as numpy does it
+                            want = float("nan") if a1 == 0 else (float("inf") if a1 > 0 else float("-inf"))
+                        else:
+                            want = a1 / a0 - 1
+                        got = fnum(v)
+                        if want != want and got != got:
+                            continue
+                        if want == got:
+                            continue
+                        if want != want or got != got or abs(want) == float("inf") or abs(got - want) > 1e-9 * max(1.0, abs(want)):
+                            fails.append("%s row %d: total return of %d is %r, over [now - lag - lookback, now - lag] it is %r"
+                                         % (n.path, row, k, v, want))
+                            break
             last = sels[-1]
-            if last[0] == "selectn" and st is not None and not last[4]:
-                cand = {k: v for k, v in st.items() if not isinstance(v, str)}
+            eligible = None
+            if last[0] == "selectn" and last[4]:
+                # filter_selected: the candidates are the tickers selected so far; derivable when one plain selector precedes
+                prior = sels[:-1]
+                if len(prior) == 1 and prior[0][0] == "selectall" and not prior[0][1] and not prior[0][2]:
+                    base = sorted(universe)
+                elif len(prior) == 1 and prior[0][0] == "selectthese" and not prior[0][2] and not prior[0][3]:
+                    base = [k for k in prior[0][1] if k in universe]
+                else:
+                    base = None
+                if base is not None:
+                    eligible = set()
+                    for k in base:
+                        p = price_at(case, nodes, n.path, k, row)
+                        if p is not None and p == p and p > 0:
+                            eligible.add(k)
+            if last[0] == "selectn" and st is not None and (not last[4] or eligible is not None):
+                cand = {k: v for k, v in st.items() if not isinstance(v, str) and (eligible is None or k in eligible)}
                 chosen = [k for k in sel if k in cand]
                 rest = [k for k in cand if k not in sel]
                 desc = bool(last[2])
@@ -641,6 +746,135 @@ def c15_weights(case, impl_case):
     return fails
 
 
+def c13_out_of_bounds(case, impl_case):
+    """'RunIfOutOfBounds is True exactly when some held target deviates from its weight by more than the tolerance', on
+    the books of gen_oob_case: [SelectThese, WeighSpecified, Or(calendar gate, RunIfOutOfBounds(tol)), Rebalance] on a
+    flat strategy.  The weight RunIfOutOfBounds sees on a date is yesterday's position at today's price over yesterday's
+    cash plus those; the stack's result is the Or of the gate and of that test."""
+    import time
+    fails = []
+    tree = case["tree"]
+    if tree[0] != "strat" or len(tree) < 5 or len(tree[4]) != 4:
+        return fails
+    st_ = tree[4]
+    if st_[0][0] != "selectthese" or st_[1][0] != "weighspecified" or st_[2][0] != "or" or st_[3][0] != "rebalance":
+        return fails
+    gate = st_[2][1]
+    if len(gate) != 2 or gate[1][0] != "outofbounds" or gate[0][0] not in ("runonce", "runperiod"):
+        return fails
+    if gate[0][0] == "runperiod" and list(gate[0][2:5]) not in ([True, False, False], [1, 0, 0]):
+        return fails
+    tol = float.fromhex(gate[1][1])
+    targets = {k: float.fromhex(x) for k, x in st_[1][1]}
+    declared = {k[1] for k in tree[3]}
+    state = impl_case["steps"][-1]["state"]
+    root, nodes, _ = build_tree(state)
+    if root is None or any(k.kind != "S" for k in root.kids):
+        return fails
+    pcols = {k: col for k, col in case["prices"]}
+    alld = [case["dates"][0] - 86400] + list(case["dates"])
+    cash = root.vals("hg_cash")
+
+    def pid(ts_):
+        g = time.gmtime(ts_)
+        return (g.tm_year, g.tm_mon) if gate[0][1] == "monthly" else (g.tm_year,) if gate[0][1] == "yearly" else None
+    first_run = None
+    for row, res, sel, w, st in node_traces(root):
+        if row is None or row < 1:
+            continue
+        if first_run is None:
+            first_run = row
+        if row >= len(alld) - 1 and gate[0][0] == "runperiod":
+            continue                      # the last date only honours its flag (K11): outside this clause
+        if gate[0][0] == "runonce":
+            g_exp = row == first_run
+        else:
+            if pid(alld[row]) is None:
+                return fails
+            g_exp = True if row == 1 else pid(alld[row]) != pid(alld[row - 1])
+        # the children that exist when the stack runs: declared ones, and lazily created ones once they have traded
+        vpre, wcur, ok = fnum(cash[row - 1]), {}, True
+        for k in root.kids:
+            kid = int(k.path.split(".")[-1])
+            pos = k.vals("h_positions")
+            col = pcols.get(kid)
+            if col is None or col[row - 1] == "nan":
+                ok = False
+                break
+            exists = kid in declared or any(fnum(x) != 0 for x in pos[:row])
+            val = fnum(pos[row - 1]) * float.fromhex(col[row - 1])
+            vpre += val
+            if exists:
+                wcur[kid] = val
+        if not ok or vpre != vpre or abs(vpre) < 1e-9:
+            continue
+        devs = [abs((wcur[k] / vpre - targets[k]) / targets[k]) for k in wcur if k in targets and targets[k] != 0]
+        if any(abs(d_ - tol) < 1e-7 for d_ in devs):
+            continue                      # on the edge of the band: rounding decides
+        exp = g_exp or any(d_ > tol for d_ in devs)
+        if bool(res) != exp:
+            fails.append("row %d: the stack reported %s; calendar gate %s, deviations from the targets %s against the tolerance %r"
+                         % (row, res, g_exp, [round(d_, 6) for d_ in devs], tol))
+            break
+    return fails
+
+
+def c15_limit_deltas(case, impl_case):
+    """'per-period weight changes no larger than the limit': a flat strategy of plain securities, fractional positions,
+    no costs, no flows, LimitDeltas(scalar) as the last weighting step before Rebalance: on every date the stack ran, no
+    child's weight (held before or targeted now) moves by more than the limit from where the date's prices had put it"""
+    fails = []
+    if case["intpos"] or case["comm"][0] != "none" or case.get("bidoffer"):
+        return fails
+    state = impl_case["steps"][-1]["state"]
+    root, nodes, _ = build_tree(state)
+    if root is None:
+        return fails
+    specs = spec_index(case["tree"])
+    pcols = {k: col for k, col in case["prices"]}
+    for n in walk(root):
+        sp = specs.get(n.path)
+        if n.kind != "G" or sp is None or len(sp) < 5 or "~" in n.path or n.f["flags"][2] == "T" or n.path != "r":
+            continue
+        if any(k.kind != "S" for k in n.kids):
+            continue
+        every = all_algos(sp[4])
+        if any(a[0] in ("capitalflow", "useradjust", "rebalanceovertime", "closedead", "not", "or", "always") for a in every):
+            continue
+        fl = flat_algos(sp[4])
+        if len(fl) < 2 or fl[-1][0] != "rebalance" or fl[-2][0] != "limitdeltas" or fl[-2][2]:
+            continue
+        if sum(1 for a in fl if a[0] == "limitdeltas") != 1:
+            continue
+        lim = abs(float.fromhex(fl[-2][1]))
+        vals, cash = n.vals("hg_values"), n.vals("hg_cash")
+        for row, res, sel, w, st in node_traces(n):
+            if row is None or row < 1 or not res or w is None:
+                continue
+            pre, post, ok = {}, {}, True
+            vpre = fnum(cash[row - 1])
+            for k in n.kids:
+                kid = int(k.path.split(".")[-1])
+                col = pcols.get(kid)
+                pos = k.vals("h_positions")
+                if col is None or col[row - 1] == "nan" or row >= len(pos):
+                    if row < len(pos) and (fnum(pos[row]) != 0 or fnum(pos[row - 1]) != 0):
+                        ok = False
+                    continue
+                p = float.fromhex(col[row - 1])
+                pre[kid] = fnum(pos[row - 1]) * p
+                post[kid] = fnum(pos[row]) * p
+                vpre += pre[kid]
+            if not ok or vpre != vpre or abs(vpre) < 1e-9 or abs(fnum(vals[row]) - vpre) > 1e-6 * max(1.0, abs(vpre)):
+                continue          # a NaN price on a held child, a flow, or costs after all: outside this clause
+            for kid in post:
+                d_ = post[kid] / vpre - pre[kid] / vpre
+                if abs(d_) > lim + 1e-9:
+                    fails.append("%s row %d: the weight of child %d moved by %r, LimitDeltas allows %r" % (n.path, row, kid, d_, lim))
+                    break
+    return fails
+
+
 def c06_rebalance(case, impl_case):
     """fractional positions, no costs: after Rebalance every targeted child sits at its weight, every other child is
     closed, the remainder is cash"""
@@ -657,11 +891,12 @@ def c06_rebalance(case, impl_case):
         if n.kind != "G" or sp is None or len(sp) < 5 or "~" in n.path or n.f["flags"][2] == "T":
             continue
         fl = flat_algos(sp[4])
-        if not fl or fl[-1][0] != "rebalance" or any(a[0] in ("rebalanceovertime", "useradjust") for a in fl):
+        if not fl or fl[-1][0] != "rebalance" or any(a[0] in ("rebalanceovertime", "useradjust") for a in all_algos(sp[4])):
             continue
-        # children that trade or receive flows later on the same date change the weights again
+        # children that trade or receive flows later on the same date change the weights again (the flow may sit inside
+        # an Or / Not / run_always wrapper)
         if any(k.kind == "G" for k in n.kids) and any(
-                any(a[0] in ("capitalflow", "useradjust") for a in flat_algos(specs[strip_paper(k.path)][4]))
+                any(a[0] in ("capitalflow", "useradjust") for a in all_algos(specs[strip_paper(k.path)][4]))
                 for k in n.kids if k.kind == "G" and len(specs.get(strip_paper(k.path), [])) > 4):
             continue
         vals, cash = n.vals("hg_values"), n.vals("hg_cash")
